@@ -86,6 +86,7 @@ type op struct {
 	issue  string
 	name   string
 	to     int
+	extra  []string // producer vote: further candidate strings sent in the transaction that are not 39-byte producer ids
 }
 
 func (o op) String() string {
@@ -97,11 +98,16 @@ func (o op) String() string {
 		for _, c := range o.cands {
 			cs = append(cs, c[len(c)-4:])
 		}
+		if len(o.extra) > 0 {
+			cs = append(cs, fmt.Sprintf("<a %d-byte id that repeats the first candidate>", len(base58.DecodeOrNil(o.extra[0]))))
+		}
 		return fmt.Sprintf("voteBP(u%d,%s)", o.from, strings.Join(cs, "+"))
 	case "votedao":
 		return fmt.Sprintf("voteDAO(u%d,%s=%s)", o.from, o.issue, o.cands[0])
 	case "unknown-cmd":
 		return fmt.Sprintf("unknownCommand(u%d,%s)", o.from, o.name)
+	case "transfer-to-staking":
+		return fmt.Sprintf("transfer(u%d->aergo.system,%s)", o.from, new(big.Int).Div(o.amount, vnode.Aergo))
 	case "name-create":
 		return fmt.Sprintf("createName(u%d,%s,%s)", o.from, o.name, new(big.Int).Div(o.amount, vnode.Aergo))
 	case "name-update":
@@ -131,12 +137,18 @@ func (o op) tx(nonce uint64, cidHash []byte) *types.Tx {
 		for _, c := range o.cands {
 			args = append(args, c)
 		}
+		for _, c := range o.extra {
+			args = append(args, c)
+		}
 		s.Recipient, s.Payload = []byte(types.AergoSystem), callInfo("v1voteBP", args...)
 	case "votedao":
 		s.Recipient, s.Payload = []byte(types.AergoSystem), callInfo("v1voteDAO", o.issue, o.cands[0])
 	case "unknown-cmd":
 		// a command the system contract does not have
 		s.Recipient, s.Payload = []byte(types.AergoSystem), callInfo(o.name)
+	case "transfer-to-staking":
+		// a plain transfer (no command) whose recipient is the staking system account
+		s.Type, s.Recipient, s.Amount = types.TxType_TRANSFER, []byte(types.AergoSystem), o.amount
 	case "name-create":
 		s.Recipient, s.Payload, s.Amount = []byte(types.AergoName), callInfo("v1createName", o.name), o.amount
 	case "name-update":
@@ -229,6 +241,7 @@ func TestC15Governance(t *testing.T) {
 	rapid.Check(t, func(t *rapid.T) {
 		nusers := rapid.IntRange(2, 5).Draw(t, "nusers")
 		nbps := rapid.IntRange(1, 3).Draw(t, "nbps")
+		withKnownInputs := rapid.IntRange(0, 5).Draw(t, "knownInputs") == 0
 		var hf config.HardforkConfig
 		switch rapid.IntRange(0, 2).Draw(t, "hfmode") {
 		case 0:
@@ -284,7 +297,12 @@ func TestC15Governance(t *testing.T) {
 			for k := 0; k < ntx; k++ {
 				o := op{from: rapid.IntRange(0, nusers-1).Draw(t, "from")}
 				a := m.a(o.from)
-				kinds := []string{"stake", "stake", "unstake", "unstake", "votebp", "votebp", "votebp", "votedao", "votedao", "name-create", "name-update", "transfer", "unknown-cmd"}
+				kinds := []string{"stake", "stake", "unstake", "unstake", "votebp", "votebp", "votebp", "votedao", "votedao", "name-create", "name-update", "transfer"}
+				if withKnownInputs {
+					// the two inputs of the recorded findings end a case when they are executed, so they are only drawn
+					// in one case out of six; the other cases explore behind them
+					kinds = append(kinds, "unknown-cmd", "transfer-to-staking")
+				}
 				if rapid.IntRange(0, 9).Draw(t, "purposeful") < 7 {
 					// purposeful mode: prefer the operation that can make progress from the model state
 					unlocked := !a.everStaked || a.when+delay <= now
@@ -327,6 +345,16 @@ func TestC15Governance(t *testing.T) {
 							o.cands = append(o.cands, cands[c])
 						}
 					}
+					if withKnownInputs && rapid.IntRange(0, 3).Draw(t, "longCand") == 0 {
+						// a syntactically valid peer id (identity multihash) of 4 x 39 bytes: 3 filler bytes of header, 36
+						// filler bytes, then the first candidate's 39 bytes three times
+						first := base58.DecodeOrNil(o.cands[0])
+						long := append([]byte{0x00, 0x99, 0x01}, bytes.Repeat([]byte{0x2a}, 36)...)
+						for r := 0; r < 3; r++ {
+							long = append(long, first...)
+						}
+						o.extra = []string{base58.Encode(long)}
+					}
 				case "votedao":
 					o.issue = rapid.SampledFrom(issues).Draw(t, "issue")
 					switch o.issue {
@@ -339,6 +367,8 @@ func TestC15Governance(t *testing.T) {
 					default:
 						o.cands = []string{vnode.Aergo.String()}
 					}
+				case "transfer-to-staking":
+					o.amount = new(big.Int).Mul(big.NewInt(int64(rapid.IntRange(0, 20).Draw(t, "amt"))), vnode.Aergo)
 				case "unknown-cmd":
 					o.name = rapid.SampledFrom([]string{"v1Stake", "v1voteBp", "v2stake", "v1unknown", "stake", ""}).Draw(t, "unknownName")
 				case "name-create":
@@ -373,22 +403,40 @@ func TestC15Governance(t *testing.T) {
 					}
 				}
 				senderBefore, _ := vb.BS.GetAccountState(types.ToAccountID(vnode.KeyN(o.from).Addr))
+				out := vb.Apply(tx)
+				if out.Panic != nil {
+					t.Fatalf("block %d (height %d, v%d): %s panicked: %v\n%s\nhistory: %s", b, now, ver, o, out.Panic, out.Stack, strings.Join(hist, " | "))
+				}
+				got := out.Kind() == "success"
+				if len(o.extra) > 0 {
+					if !got {
+						bdesc = append(bdesc, fmt.Sprintf("%s=false", o))
+						continue // refusing a candidate list with a malformed id is always legitimate
+					}
+					if rec.IsKnown("votebp-candidate-multiple-of-39-bytes") {
+						// known finding: the long id is cut into 39-byte pieces and each piece is booked as a candidate (the
+						// model is not continued: the tally equation fails at the block boundary)
+						rec.Excluded("votebp-candidate-multiple-of-39-bytes")
+						return
+					}
+				}
 				want := false
-				if o.amount != nil && (o.kind == "stake" || o.kind == "name-create" || o.kind == "name-update" || o.kind == "transfer") &&
+				if o.amount != nil && (o.kind == "stake" || o.kind == "name-create" || o.kind == "name-update" || o.kind == "transfer" || o.kind == "transfer-to-staking") &&
 					new(big.Int).SetBytes(senderBefore.Balance).Cmp(o.amount) < 0 {
 					// cannot pay the amount: refused whatever the governance rules say (fees are not modelled: on
 					// public networks the balances used here leave ample room for them)
 				} else {
 					want = m.expect(o, now, ver)
 				}
-				out := vb.Apply(tx)
-				if out.Panic != nil {
-					t.Fatalf("block %d (height %d, v%d): %s panicked: %v\n%s\nhistory: %s", b, now, ver, o, out.Panic, out.Stack, strings.Join(hist, " | "))
-				}
-				got := out.Kind() == "success"
 				if o.kind == "unknown-cmd" && got && rec.IsKnown("unknown-system-command-runs-as-producer-vote") {
 					// known finding: executed as a producer vote without candidates (the model is not continued)
 					rec.Excluded("unknown-system-command-runs-as-producer-vote")
+					return
+				}
+				if o.kind == "transfer-to-staking" && got && o.amount.Sign() > 0 && rec.IsKnown("plain-transfer-to-staking-account") {
+					// known finding: the staking account now holds coins that no stake record covers (the model is not
+					// continued: the balance equation fails at every later block boundary)
+					rec.Excluded("plain-transfer-to-staking-account")
 					return
 				}
 				if got != want {
@@ -622,4 +670,99 @@ func TestC15KnownPreV2Vote(t *testing.T) {
 		return
 	}
 	t.Fatalf("in-memory voting power ranking (total %v) differs from the one rebuilt from state (total %v, err %v)\n%s", mem, st, err, system.VerifVPRDescribe(scs))
+}
+
+// known: C15 plain-transfer-to-staking-account and unknown-system-command-runs-as-producer-vote — deterministic
+// reproductions (so that the KNOWN-FINDING lines do not depend on what the generator happens to draw)
+func TestC15KnownSystemAccountInputs(t *testing.T) {
+	rec := ev.New("C15", "known-system-account-inputs")
+	defer rec.Flush()
+	opts := vnode.WorldOpts{Consensus: "dpos", Public: false, NUsers: 2, NBPs: 1, Magic: "verif.c15s"}
+	N, err := vnode.Open(vnode.NewSpec(opts), "")
+	if err != nil {
+		t.Fatal(err)
+	}
+	defer N.Remove()
+	N.SwitchTo()
+	root := N.Best().GetHeader().GetBlocksRootHash()
+	run := func(no uint64, nonce uint64, o op) string {
+		vb := N.NewVBlock(root, no, int64(no)*1e9, contract.ChainService)
+		out := vb.Apply(o.tx(nonce, vb.ChainIDHash()))
+		if out.Panic != nil {
+			t.Fatalf("%s at height %d panicked: %v", o, no, out.Panic)
+		}
+		r, err := vb.Finish(false, nil)
+		if err != nil {
+			t.Fatal(err)
+		}
+		system.CommitParams(true)
+		root = r
+		return out.Kind()
+	}
+	if k := run(1, 1, op{kind: "stake", from: 0, amount: vnode.StakeMin}); k != "success" {
+		t.Fatalf("harness: stake %s", k)
+	}
+	if k := run(2, 2, op{kind: "votebp", from: 0, cands: []string{vnode.BPN(0).Enc()}}); k != "success" {
+		t.Fatalf("harness: vote %s", k)
+	}
+	open := func() *statedb.ContractState {
+		scs, err := statedb.GetSystemAccountState(N.CS.SDB().OpenNewStateDB(root))
+		if err != nil {
+			t.Fatal(err)
+		}
+		return scs
+	}
+	// 1. a plain transfer to the staking account
+	k1 := run(3, 1, op{kind: "transfer-to-staking", from: 1, amount: new(big.Int).Mul(big.NewInt(7), vnode.Aergo)})
+	rec.Case("regression", "transfer-to-staking", true, func() interface{} { return "stake(u0), voteBP(u0), transfer(u1->aergo.system,7): " + k1 })
+	total, err := system.GetStakingTotal(open())
+	if err != nil {
+		t.Fatal(err)
+	}
+	d, err := N.DumpAt(root)
+	if err != nil {
+		t.Fatal(err)
+	}
+	if bal := d.Balance([]byte(types.AergoSystem)); bal.Cmp(total) != 0 {
+		if !rec.IsKnown("plain-transfer-to-staking-account") {
+			t.Fatalf("after a plain transfer of 7 aergo to aergo.system (%s) the staking account holds %s but the recorded staking total is %s", k1, bal, total)
+		}
+		rec.Excluded("plain-transfer-to-staking-account")
+	}
+	// 2. an unknown command
+	k2 := run(4, 3, op{kind: "unknown-cmd", from: 0, name: "v1Stake"})
+	rec.Case("regression", "unknown-cmd", true, func() interface{} { return "stake(u0), voteBP(u0), unknownCommand(u0,v1Stake): " + k2 })
+	if k2 == "success" {
+		if !rec.IsKnown("unknown-system-command-runs-as-producer-vote") {
+			t.Fatalf("the command \"v1Stake\", which the system contract does not have, was executed with success")
+		}
+		rec.Excluded("unknown-system-command-runs-as-producer-vote")
+	}
+	// 3. a producer vote by user 1 with a 156-byte peer id that repeats the producer's id three times
+	if k := run(5, 2, op{kind: "stake", from: 1, amount: vnode.StakeMin}); k != "success" {
+		t.Fatalf("harness: stake %s", k)
+	}
+	first := base58.DecodeOrNil(vnode.BPN(0).Enc())
+	long := append([]byte{0x00, 0x99, 0x01}, bytes.Repeat([]byte{0x2a}, 36)...)
+	for r := 0; r < 3; r++ {
+		long = append(long, first...)
+	}
+	k3 := run(6, 3, op{kind: "votebp", from: 1, cands: []string{vnode.BPN(0).Enc()}, extra: []string{base58.Encode(long)}})
+	rec.Case("regression", "long-candidate", true, func() interface{} { return "stake(u1), voteBP(u1, T + 156-byte id repeating T): " + k3 })
+	if k3 == "success" {
+		list, err := system.VerifVoteList(open(), "voteBP")
+		if err != nil {
+			t.Fatal(err)
+		}
+		for _, v := range list.GetVotes() {
+			// user 0's vote for T was emptied by the unknown command above (or is still there): T's tally may be at most
+			// the two stakes
+			if bytes.Equal(v.Candidate, first) && v.GetAmountBigInt().Cmp(new(big.Int).Mul(big.NewInt(2), vnode.StakeMin)) > 0 {
+				if !rec.IsKnown("votebp-candidate-multiple-of-39-bytes") {
+					t.Fatalf("tally of the producer is %s after one vote of an account that staked %s", v.GetAmountBigInt(), vnode.StakeMin)
+				}
+				rec.Excluded("votebp-candidate-multiple-of-39-bytes")
+			}
+		}
+	}
 }
